@@ -544,7 +544,7 @@ func suiteShutdown(o *Out, r *Rng, n int, tier string) {
 			finish(o, "eternal/"+where, es, done, l, in, extra)
 		}
 		// ---- multiplexed source: serial handler calls, handler failure shuts all inner sources down
-		for _, where := range []string{"handler-failure", "async", "in-factory"} {
+		for _, where := range []string{"handler-failure", "async", "in-factory", "single-reconnect"} {
 			l := &handlerLog{failAtK: -1}
 			if where == "handler-failure" {
 				l.failAtK = 3
@@ -556,6 +556,28 @@ func suiteShutdown(o *Out, r *Rng, n int, tier string) {
 			// begin just after the shutdown; a handler call counts as late only once these loops have ended
 			var pushers sync.WaitGroup
 			nsrc := 2 + r.Intn(3)
+			if where == "single-reconnect" {
+				// one factory: the inner source dies during its own handler call, the reconnected incarnation delivers while
+				// that call is still in flight — the two calls must still be serialised
+				nsrc = 1
+				l.onCall = func(k int) {
+					if k == 0 {
+						imu.Lock()
+						first := inner[0]
+						imu.Unlock()
+						first.Shutdown(errors.New("inner source dies during its handler call"))
+						for t0 := time.Now(); time.Since(t0) < 400*time.Millisecond; time.Sleep(time.Millisecond) {
+							imu.Lock()
+							n := len(inner)
+							imu.Unlock()
+							if n >= 2 {
+								break
+							}
+						}
+						time.Sleep(8 * time.Millisecond) // the replacement's first push is under way
+					}
+				}
+			}
 			var factories []bstream.SourceFactory
 			for f := 0; f < nsrc; f++ {
 				f := f
